@@ -7,7 +7,28 @@ var stdTrusted = []string{
 	"mathematical lemmas stated in DESIGN.md section 5 (CRT isomorphism, Fermat for the oracle-prime moduli, Cooley-Tukey composition)",
 }
 
+func copySimple(id string) func(prog *Program, repo, tier string) ([]simpleObligation, []string) {
+	return func(prog *Program, repo, tier string) ([]simpleObligation, []string) {
+		return copyObligations(prog, id), nil
+	}
+}
+
 var propertyConfigs = map[string]*propertyConfig{
+	"C10": {
+		ID:       "C10",
+		Packages: []string{"./..."},
+		Level:    "proof",
+		Explain: "Copy-constructor contracts (`//@ copy T.M` with shared / fresh / copied / rebound / derived classes for every field) in the zz_contracts_verif.go files; " +
+			"the constructor's returned composite literal is executed symbolically on the typed AST, one obligation per struct field: the field is classified (completeness), set, and set the way its class demands " +
+			"(shared = exactly receiver.f; fresh = newly built, not receiver.f; copied = a call on receiver.f; rebound = the parameter; derived = built from the named receiver fields).",
+		Assumptions: []string{
+			"decides the completeness / sharing-discipline clauses of C10 only: every field of the copy is accounted for and owned (scratch, sampler, PRNG-backed) state is never shared between copies",
+			"NOT decided: behavioural equality of copy and original beyond field provenance, deep-copy contents, and data-race freedom of memory classified shared (that needs the frame engine over all methods, see DESIGN.md)",
+			"constructors must return a composite literal (directly or through one local); other shapes are reported as failed target obligations, not skipped",
+		},
+		Trusted: []string{"go/packages + go/types front end (x/tools v0.29.0)", "the field classification in the contract files is the specification (written from the documented intent of each constructor)"},
+		Simple:  copySimple("C10"),
+	},
 	"C01": {
 		ID:       "C01",
 		Packages: []string{"./ring/..."},
